@@ -18,7 +18,8 @@ import os, subprocess, struct
 FORM = {"addr": 0x01, "block2": 0x03, "block4": 0x04, "data2": 0x05, "data4": 0x06, "data8": 0x07, "string": 0x08,
         "block": 0x09, "block1": 0x0a, "data1": 0x0b, "flag": 0x0c, "sdata": 0x0d, "strp": 0x0e, "udata": 0x0f,
         "ref_addr": 0x10, "ref1": 0x11, "ref2": 0x12, "ref4": 0x13, "ref8": 0x14, "ref_udata": 0x15, "indirect": 0x16,
-        "sec_offset": 0x17, "exprloc": 0x18, "flag_present": 0x19, "implicit_const": 0x21}
+        "sec_offset": 0x17, "exprloc": 0x18, "flag_present": 0x19, "implicit_const": 0x21,
+        "GNU_ref_alt": 0x1f20}
 
 # operand encodings of the location operations we generate
 OPS = {
@@ -160,6 +161,9 @@ def generate(forest, path_s):
             elif f == "ref_addr":
                 if u["version"] == 2: a.emit(".quad die_%d - .Ldebug_info0" % v)
                 else: a.emit(".long die_%d - .Ldebug_info0" % v)
+            elif f == "GNU_ref_alt":
+                # a DIE of the dwz alt file, by its offset in that file's .debug_info
+                a.emit(".long %d" % forest["_alt_offsets"]["die_%d" % v])
             elif f == "sec_offset": a.emit(".long %d" % v)
             elif f in ("exprloc", "block1"):
                 if f == "exprloc": a.emit(".uleb128 .Lexpr_%s_e - .Lexpr_%s_s" % (uniq, uniq))
@@ -239,6 +243,10 @@ def generate(forest, path_s):
             bs = v if isinstance(v, (bytes, bytearray)) else v.encode("latin-1")
             for b in bs: a.emit(".byte %d" % b)
             a.emit(".byte 0")
+    if forest.get("_alt_name"):
+        a.emit('.section .gnu_debugaltlink,"",@progbits')
+        a.emit('.asciz "%s"' % forest["_alt_name"])
+        a.emit(".byte " + ",".join("0x%02x" % (0xa0 + k) for k in range(20)))       # the build id of the alt file
     a.emit('.section .text')
     a.emit(".byte 0")
     with open(path_s, "w") as f:
@@ -267,6 +275,20 @@ def build(forest, workdir, name):
     s = os.path.join(workdir, name + ".s")
     o = os.path.join(workdir, name + ".o")
     forest.pop("_strs", None)
+    alt_offs = {}
+    if forest.get("alt_units"):
+        # the dwz alt file first: its DIE offsets are needed for DW_FORM_GNU_ref_alt in the main file.  It sits
+        # next to the main file under the name recorded in .gnu_debugaltlink.
+        altname = name + "-alt.o"
+        alt_forest = {"units": forest["alt_units"]}
+        generate(alt_forest, os.path.join(workdir, name + "-alt.s"))
+        assemble(os.path.join(workdir, name + "-alt.s"), os.path.join(workdir, altname))
+        alt_offs = symbol_offsets(os.path.join(workdir, altname))
+        forest["_alt_offsets"] = alt_offs
+        forest["_alt_name"] = altname
     tables = generate(forest, s)
     assemble(s, o)
-    return o, symbol_offsets(o), tables
+    offs = symbol_offsets(o)
+    for k, v in alt_offs.items():
+        offs["alt_" + k] = v
+    return o, offs, tables
